@@ -72,3 +72,16 @@ Theorem C09_same_derivation : forall T o1 o2 len1 len2 phi root w0 f,
   fst (parse_all T o2 len2 f root w0) = mapres phi (fst (parse_all T o1 len1 f root w0)) /\
   tl (snd (parse_all T o2 len2 f root w0)) = map (mapq phi) (tl (snd (parse_all T o1 len1 f root w0))).
 Proof. exact C09_same_derivation_pf. Qed.
+
+(* non-vacuity: a sequence whose whitespace engine (0) skips the comment.  Text 1 = "order by" (one blank), text 2 = "order/**/by";
+   every logged query commutes, the hypotheses of C09_layout_invariance hold and the second parse accepts like the first. *)
+Example C09_premises_satisfiable :
+  let T := [Build_entry (NSeq 0 [(1, false); (2, false)]) VNone; Build_entry (NTerm 0) VNone; Build_entry (NTerm 1) VNone] in
+  let o1 := fun q => match q with QT 0 0 => 6 | QT 1 6 => 9 | QS 0 5 => 6 | QS _ p => p | _ => 0 end in
+  let o2 := fun q => match q with QT 0 0 => 6 | QT 1 9 => 12 | QS 0 5 => 9 | QS _ p => p | _ => 0 end in
+  let phi := fun p => if p <=? 5 then p else p + 3 in
+  simb T T (id_rel (length T)) [] [] = true /\ In (0, 0) (id_rel (length T)) /\
+  o2 (QS 0 0) = phi (o1 (QS 0 0)) /\
+  forallb (fun q => o2 (mapq phi q) =? mapa phi q (o1 q)) (snd (parse_all T o1 8 5 0 0)) = true /\
+  fst (parse_all T o1 8 5 0 0) = Ok 8 false /\ fst (parse_all T o2 11 5 0 0) = Ok 11 false.
+Proof. vm_compute. repeat split; auto. Qed.
